@@ -1,6 +1,7 @@
 #include "move_orderer.h"
 
 #include "types.h"
+#include "verif_hooks.h"
 
 namespace engine
 {
@@ -96,6 +97,7 @@ void MoveOrderer::order_moves(const Position& position, Move* begin, Move* end,
     if (found) ttMove = entryPtr->value.move;
 
     int n_moves = static_cast<int>(end - begin);
+    VERIF_BOUND(n_moves, MAX_MOVES + 1, "move_orderer.cpp:scores");
 
     // score moves
     int i = 0;
